@@ -116,6 +116,15 @@ def install(rec, BB, ES, SH, GT, gpyreg):
     def mk_predict(orig):
         def w(gp, *a, **kw):
             r = orig(gp, *a, **kw)
+            # single-point predictions inside a search / poll step: the GP estimate at a new point
+            try:
+                if rec.acq_predicts is None and rec.stack and rec.stack[-1] in ("search", "poll") and a:
+                    xs = np.atleast_2d(np.asarray(a[0], dtype=float))
+                    if xs.shape[0] == 1:
+                        rec.emit("Predict1", site=rec.stack[-1], u=xs[0].copy(), mu=float(np.asarray(r[0]).ravel()[0]),
+                                 s2=float(np.asarray(r[1]).ravel()[0]))
+            except Exception:
+                pass
             if rec.acq_predicts is not None:
                 try:
                     rec.acq_predicts.append((_c(r[0]), _c(r[1])))
